@@ -5,7 +5,7 @@
     and smtp_data runs with the parameters of the session: submission mode is the port, the From: field it may add carries
     xmitstat.mailfrom - the sender that the envelope of the same hand-off carries in its F record. *)
 From Qv Require Import Common.Bytes Gen.GenNetio Gen.GenSession Model.NetRead Model.Session Spec.LineSpec Spec.SessionSpec
-  Proofs.NetReadProofs Proofs.DataProofs.
+  Proofs.NetReadProofs Proofs.DataProofs Proofs.RelayDecide.
 From Coq Require Import Lia.
 
 Definition rd_ok (s : sstate) : Prop := rstate_ok (rd s).
@@ -139,33 +139,38 @@ Proof.
 Qed.
 
 (** ---------- the handlers ---------- *)
-Lemma relay_decide_rd s cls al s1 pre : relay_decide o s cls = (al, s1, pre) -> rd s1 = rd s /\ no_ho pre.
+Lemma pre_ok_noho pre : pre_ok pre -> no_ho pre.
 Proof.
-  unfold relay_decide. destruct cls.
-  - intros H; inversion H; subst. split; reflexivity.
-  - destruct (authed s); [intros H; inversion H; subst; split; reflexivity|].
-    destruct (N.eqb (relayclient s) 0); [destruct (Z.ltb (o_relay o) 0)|]; intros H; inversion H; subst; split; reflexivity.
+  unfold pre_ok, no_ho. induction pre as [|e r IH]; [reflexivity|]. cbn [forallb existsb]. intros H.
+  apply andb_true_iff in H as [He Hr]. rewrite (IH Hr), orb_false_r.
+  destruct e as [c|x y| | |n]; try reflexivity; discriminate.
 Qed.
-Lemma subm_gate_rd s al s1 pre : subm_gate o s = (al, s1, pre) -> rd s1 = rd s /\ no_ho pre.
+
+Lemma relay_decide_rd s cls res s1 pre : relay_decide o s cls = (res, s1, pre) -> rd s1 = rd s /\ no_ho pre.
+Proof.
+  intros H. destruct (relay_decide_core _ _ _ _ _ _ H) as (Hc & Hp). split; [apply Hc|exact (pre_ok_noho _ Hp)].
+Qed.
+Lemma subm_gate_rd s res s1 pre : subm_gate o s = (res, s1, pre) -> rd s1 = rd s /\ no_ho pre.
 Proof.
   unfold subm_gate. destruct (o_submission o); [apply relay_decide_rd|]. intros H; inversion H; subst. split; reflexivity.
 Qed.
+
+Ltac nhp Hp := first [ exact Hp | apply no_ho_app; [exact Hp|reflexivity] | reflexivity ].
 
 Lemma h_rcpt_ho s arg evs h s' : rd_ok s -> h_rcpt o s arg = (evs, h, s') -> no_ho evs /\ rd_ok s'.
 Proof.
   unfold h_rcpt. intros Hok H.
   destruct (o_addr o true arg) as [| | |addr more cls];
     try (destruct (Nat.leb MAXRCPT (rcptcount s))); try (inversion H; subst; (split; [reflexivity|]); first [exact Hok|apply tarpit_ok; exact Hok]).
-  destruct (relay_decide o s cls) as [[al s1] pre] eqn:Er.
+  destruct (relay_decide o s cls) as [[res s1] pre] eqn:Er.
   destruct (relay_decide_rd _ _ _ _ _ Er) as (Hrd & Hpre).
   assert (Hok1 : rd_ok s1) by (unfold rd_ok; rewrite Hrd; exact Hok).
-  destruct pre as [|p pre'].
-  2:{ inversion H; subst. split; [exact Hpre|exact Hok1]. }
+  destruct res as [al|h0]; [|inversion H; subst; split; [exact Hpre|exact Hok1]].
   repeat (match type of H with
           | context [match ?x with _ => _ end] => destruct x eqn:?
           | context [if ?x then _ else _] => destruct x eqn:?
           end; try discriminate);
-    inversion H; subst; (split; [reflexivity|]);
+    inversion H; subst; (split; [nhp Hpre|]);
     first [exact Hok1 | apply tarpit_ok; exact Hok1].
 Qed.
 
@@ -174,15 +179,15 @@ Proof.
   unfold h_from. intros Hok H.
   destruct (o_addr o false arg) as [| | |addr more cls]; [inversion H; subst; split; [reflexivity|exact Hok]| | |];
     (match type of H with context [subm_gate o ?sc] =>
-       destruct (subm_gate o sc) as [[al s1] pre] eqn:Eg; destruct (subm_gate_rd _ _ _ _ Eg) as (Hrd & Hpre) end);
+       destruct (subm_gate o sc) as [[res s1] pre] eqn:Eg; destruct (subm_gate_rd _ _ _ _ Eg) as (Hrd & Hpre) end);
     cbn [rd] in Hrd;
     (assert (Hok1 : rd_ok s1) by (unfold rd_ok; rewrite Hrd; exact Hok));
-    (destruct pre as [|p pre']; [|inversion H; subst; split; [exact Hpre|exact Hok1]]);
+    (destruct res as [al|h0]; [|inversion H; subst; split; [exact Hpre|exact Hok1]]);
     repeat (match type of H with
             | context [match ?x with _ => _ end] => destruct x eqn:?
             | context [if ?x then _ else _] => destruct x eqn:?
             end; try discriminate);
-    inversion H; subst; (split; [reflexivity|]);
+    inversion H; subst; (split; [nhp Hpre|]);
     first [exact Hok1 | apply tarpit_ok; exact Hok1].
 Qed.
 
@@ -269,7 +274,7 @@ Proof.
   - destruct (h_data f o s) as [[e h'] s'] eqn:Eh.
     destruct (h_data_ho _ _ _ _ _ Hok Eh) as (Hn & Hb).
     destruct h'; inversion H; subst; (split; [exact Hn|]); first [congruence | intros _; apply Hb; discriminate].
-  - inversion H; subst. apply K; [reflexivity|exact Hok].
+  - destruct (negb (esmtp s)); inversion H; subst; (apply K; [reflexivity|exact Hok]).
   - destruct (authed s || negb (o_authperm o)); [inversion H; subst; apply K; [reflexivity|exact Hok]|].
     destruct (o_auth o (skipn 5 l)); inversion H; subst; first [apply K; [reflexivity|exact Hok] | apply KX; reflexivity].
   - inversion H; subst. apply K; [reflexivity|exact Hok].
